@@ -381,6 +381,13 @@ func (l *NDNLPLinkService) handleIncomingFrame(frame []byte) {
 		pkt.L3 = L3
 	}
 
+	// A frame carries exactly one network-layer packet. Whatever follows the first TLV is
+	// parsed by nobody on the way, yet it would be forwarded along with the packet in pkt.Raw.
+	if !isSingleTLV(pkt.Raw) {
+		core.LogWarn(l, "Received frame with trailing bytes after the network-layer packet - DROP")
+		return
+	}
+
 	// Dispatch and update counters
 	if pkt.L3.Interest != nil {
 		l.nInInterests++
@@ -391,6 +398,19 @@ func (l *NDNLPLinkService) handleIncomingFrame(frame []byte) {
 	} else {
 		core.LogError(l, "Attempted dispatch packet of unknown type")
 	}
+}
+
+// isSingleTLV reports whether buf consists of exactly one TLV block.
+func isSingleTLV(buf []byte) bool {
+	r := enc.NewBufferReader(buf)
+	if _, err := enc.ReadTLNum(r); err != nil {
+		return false
+	}
+	l, err := enc.ReadTLNum(r)
+	if err != nil {
+		return false
+	}
+	return uint64(r.Length()-r.Pos()) == uint64(l)
 }
 
 func (l *NDNLPLinkService) reassemblePacket(
